@@ -261,6 +261,7 @@ def monitor (pid : String) (c0 a : List String) : String :=
           else [])
        | "C19" => Spec.Mon.check19 cfg.maxLine (tag == "TAG=cmdonly" || tag == "TAG=cmdonly-sharedseg") input evs ++ Spec.Mon.check8 evs
        | "C13" => Spec.Mon.check13 cfg.lmtp cfg.lmtpSess be.data drecs evs
+       | "C01" => Spec.Mon.checkBait input evs ++ Spec.Mon.checkExpect expect drecs
        | "C05" => Spec.Mon.checkBait input evs ++ Spec.Mon.checkExpect expect drecs
        | "C02" => Spec.Mon.checkBait input evs ++ Spec.Mon.checkResume cfg.lmtp input evs
        | "C06" => Spec.Mon.checkBait input evs ++ Spec.Mon.checkResume cfg.lmtp input evs ++
